@@ -25,11 +25,12 @@ import (
 )
 
 var (
-	check   *common.Check
-	sem     chan struct{}
-	dirSeq  atomic.Int64
-	genRuns atomic.Int64
-	builds  atomic.Int64
+	check          *common.Check
+	sem            chan struct{}
+	dirSeq         atomic.Int64
+	genRuns        atomic.Int64
+	builds         atomic.Int64
+	scratchRetries atomic.Int64
 )
 
 // runInScratch materialises a state, runs the generator, optionally `go build ./...`.
@@ -41,14 +42,34 @@ type runResult struct {
 	build    func() (bool, string)
 }
 
+// withProject runs f in a fresh scratch project. If the project directory is damaged from
+// outside while f runs (other checks share $VERIF_SCRATCH and clean it), the whole step is
+// repeated; a step only counts when its directory was intact at the end.
 func withProject(files map[string]string, f func(dir string) error) error {
-	name := fmt.Sprintf("p%06d", dirSeq.Add(1))
-	dir, err := probe.WriteProject(probe.Spec{Name: name, Files: files})
-	if err != nil {
-		return err
+	var err error
+	for attempt := 0; attempt < 4; attempt++ {
+		name := fmt.Sprintf("p%06d", dirSeq.Add(1))
+		var dir string
+		dir, err = probe.WriteProject(probe.Spec{Name: name, Files: files})
+		if err != nil {
+			scratchRetries.Add(1)
+			continue
+		}
+		err = f(dir)
+		intact := true
+		for _, p := range []string{"go.mod", "gqlgen.yml", "a.graphql", "graph"} {
+			if _, e := os.Stat(filepath.Join(dir, p)); e != nil {
+				intact = false
+			}
+		}
+		os.RemoveAll(dir)
+		if intact {
+			return err
+		}
+		scratchRetries.Add(1)
+		err = fmt.Errorf("scratch project %s was removed from outside during the step", dir)
 	}
-	defer os.RemoveAll(dir)
-	return f(dir)
+	return err
 }
 
 func readGo(dir string) map[string]string {
@@ -195,6 +216,7 @@ type Tree struct {
 	done      bool
 	histories int
 	terminal  int
+	lastPath  []string
 }
 
 func (t *Tree) see(s *State) { t.states[s.Hash()] = true }
@@ -296,6 +318,7 @@ func (t *Tree) step(d int) error {
 		return err
 	}
 	t.histories += len(t.level)
+	t.lastPath = t.level[len(t.level)-1].Path
 	if d >= t.Depth {
 		t.level = nil
 		return nil
@@ -361,11 +384,11 @@ func plan(tier string) []*Tree {
 	mixed := func(t, rot int) []string {
 		out := make([]string, 6)
 		for i := 0; i < 6; i++ {
-			out[(i+rot)%6] = bodies[(6*t+i)%len(bodies)].Name
+			out[(i+rot)%6] = bodies[1+(6*t+i)%(len(bodies)-1)].Name // bodies[0] (plain) is in every other tree
 		}
 		return out
 	}
-	nMixed := (len(bodies) + 5) / 6
+	nMixed := (len(bodies) - 1 + 5) / 6
 	layouts := []string{layoutFollow, layoutSingle}
 	all := append(append([]Event{}, baseEvents...), extraEvents...)
 	groups := []string{"decls", "imports", "imports2", "terminators"}
@@ -605,6 +628,9 @@ func main() {
 	check.Cov["traces_validated_against_impl"] = runs
 	check.Cov["histories_closed_with_two_regenerations"] = histories
 	check.Cov["go_builds"] = int(builds.Load())
+	if n := scratchRetries.Load(); n > 0 {
+		check.Cov["steps_repeated_because_scratch_dir_was_removed_from_outside"] = int(n)
+	}
 	check.Cov["oracle"] = map[string]int{"surviving_methods_compared": agg.Methods, "other_declarations_looked_up": agg.Decls,
 		"import_requirements_checked": agg.Imports, "checks_masked_by_unparseable_file": agg.Masked, "compile_clause_evaluated": compiled}
 	check.Cov["complaints_by_signature"] = sigCount
@@ -650,12 +676,6 @@ func main() {
 }
 
 func exampleHistory(t *Tree) []string {
-	// the longest finding path, or a generic one
-	best := []string{"regen", "regen"}
-	for _, f := range t.findings {
-		if len(f.Path) > len(best) {
-			best = f.Path
-		}
-	}
-	return best
+	// the last history of the deepest completed level, with its closing regenerations
+	return append(append([]string{}, t.lastPath...), "regen", "regen")
 }
